@@ -674,3 +674,17 @@ package value
 //@   ensures[same-map] result != nil && mcard(result) == mcard(box(m)) && (forall k string :: mhas(result, k) == mhas(box(m), k) && (mhas(box(m), k) ==> mget(result, k) == mget(box(m), k)))
 //@   callback "rm[key] = v" invariant rm != nil && len(rm) == cbidx && (forall i in 0..cbidx :: haskey(rm, mkeyAt(box(m), i)) && rm[mkeyAt(box(m), i)] == mget(box(m), mkeyAt(box(m), i))) && (forall k string :: haskey(rm, k) ==> mindex(box(m), k) < cbidx && mhas(box(m), k))
 //@   callback "lm = lm.Append(key, v)" invariant len(lm) == cbidx && fresh(lm) && (forall i in 0..cbidx :: lm[i].key == mkeyAt(box(m), i) && lm[i].value == mget(box(m), mkeyAt(box(m), i)))
+
+// ---------------------------------------------------------------- combineN (C07, C09)
+// The function literal given to iterator.CombineN receives a reused ring buffer `i` and the index `i0` of its oldest
+// item (ASSUMED protocol of the dependency: 0 <= i0 < len(i)). The list handed to the program's function holds the
+// window in list order, oldest item first, in storage of its own (defect found and fixed: the buffer itself was wrapped).
+//@ closure List.CombineN anchor "st.Push(NewList("
+//@   property C07, C09
+//@   safety C05
+//@   requires 0 <= i0 && i0 < len(i) && validStack(st)
+// the program's function as ToFunc("combineN", sta, 2, 1) hands it out: one argument, no closure context (ASSUMED)
+//@   requires f.Func != nil && fs(f.Func) == 1 && cl(f.Func) == 0
+//@   assert-after[window-in-list-order C07] "NewList(" callres0.size == len(i) && len(callres0.items) == len(i) \
+//@       && (forall k in 0..len(i)-i0 :: callres0.items[k] == old(i[i0+k])) && (forall k in 0..i0 :: callres0.items[len(i)-i0+k] == old(i[k]))
+//@   assert-after[window-is-its-own-storage C09] "NewList(" fresh(callres0.items) && ref(callres0.items) != ref(i)
